@@ -198,7 +198,7 @@ def tlc(ctx, module, cfg_text, name, workers=None, timeout=900, extra=None,
     m = re.search(r"Action property (\S+) is violated", out)
     if m:
         res["violated"] = m.group(1)
-    m = re.search(r'"TRACE_REJECTED_AT_LINE", (\d+), "OF", (\d+)', out)
+    m = re.search(r'"TRACE_REJECTED_AT_LINE"\s*,\s*(\d+)\s*,\s*"OF"\s*,\s*(\d+)', out)
     if m:
         res["rejected_at"] = int(m.group(1))
     if p.returncode == 124:
@@ -256,3 +256,24 @@ def git_head():
         return h + ("+dirty" if d else "")
     except Exception:
         return "?"
+
+
+def printed_tuples(out, tag):
+    """All tuples <<"tag", ...>> TLC printed (Print/PrintT), whatever the line
+    breaking; each is returned as a list of Python values (ints, bools, strs)."""
+    flat = re.sub(r"\s+", " ", out)
+    res = []
+    for m in re.finditer(r'<<\s*"%s"\s*,(.*?)>>' % re.escape(tag), flat):
+        vals = []
+        for tok in m.group(1).split(","):
+            tok = tok.strip()
+            if tok in ("TRUE", "FALSE"):
+                vals.append(tok == "TRUE")
+            elif re.fullmatch(r"-?\d+", tok):
+                vals.append(int(tok))
+            else:
+                vals.append(tok.strip('"'))
+        res.append(vals)
+    if len(res) != flat.count('"%s"' % tag):
+        raise Infra("could not parse every %s tuple TLC printed" % tag)
+    return res
